@@ -11,6 +11,7 @@ A scenario is a dict in the driver's JSON format (floats as bit-pattern strings,
 Everything observed goes through public extension points (IProtocol, INodeHandler, IProvider,
 SimulationBuilder, Simulator.step_simulation/start_simulation/get_node).
 """
+import copy
 import logging
 import random
 
@@ -285,6 +286,14 @@ def make_handler(rec, label, cfg, sampler):
         return cls()
     if label == "communication" and cfg["hasComm"]:
         cls = _leaf(_mk("RecCommunicationHandler", (CommunicationHandler,), hooks), "RecCommunicationHandler", lh)
+        if rec.scn.get("lateMedium"):
+            # the medium object is handed over first and configured afterwards (delay and loss rate
+            # are properties of the medium, read when a message is sent)
+            medium = CommunicationMedium(transmission_range=bitsf(cfg["defaultRange"]))
+            handler = cls(medium)
+            medium.delay = cfg["delay"] / rec.tick
+            medium.failure_rate = bitsf(cfg["failRate"])
+            return handler
         medium = CommunicationMedium(transmission_range=bitsf(cfg["defaultRange"]),
                                      delay=cfg["delay"] / rec.tick,
                                      failure_rate=bitsf(cfg["failRate"]))
@@ -332,6 +341,50 @@ def build(scn, rec, sim_options=None):
     return sim
 
 
+class Shadow:
+    """A second simulation alive in the same process and advanced in lock-step with the scenario's own
+    one (`scn["shadow"]`). Nothing of it is observed: whatever it does must not matter to the scenario
+    (C06: independence of other simulations in the process; C13 across simulators). `mode` "twin" replays
+    the same behaviour (same node ids, timer names and internal identifiers), "other" a different one.
+    Its medium is lossless so that it never touches the (shared, recorded) random stream."""
+
+    def __init__(self, scn, behaviour):
+        import simgen
+        sh = scn["shadow"]
+        s2 = copy.deepcopy({k: v for k, v in scn.items() if k not in ("shadow", "prestart", "simOptions")})
+        s2["cfg"]["failRate"] = fbits(0.0)
+        s2["cfg"]["maxIter"] = None
+        if sh.get("refGeo"):
+            s2["cfg"]["refGeo"] = sh["refGeo"]
+        s2["wantPos"] = False
+        twin = sh.get("mode", "twin") == "twin"
+        if twin and behaviour is None:
+            beh = None                                   # frozen scenario: the same table
+        else:
+            s2["table"] = []
+            seed = getattr(behaviour, "seed", simgen.stable_hash("beh", scn.get("seed", 0))) if twin else \
+                simgen.stable_hash("shadow", scn.get("seed", 0))
+            beh = simgen.Behaviour(seed, s2["cfg"], scn.get("profile"))
+        self.rec = Recorder(s2, beh)
+        self.alive = True
+        try:
+            self.sim = build(s2, self.rec)
+        except Exception:
+            self.alive = False
+
+    def step(self, k=1):
+        for _ in range(k):
+            if not self.alive:
+                return
+            try:
+                if not self.sim.step_simulation():
+                    self.alive = False
+            except BaseException as e:                    # the shadow's own failures are not the scenario's
+                if isinstance(e, (KeyboardInterrupt, SystemExit)):
+                    raise
+                self.alive = False
+
+
 def run_impl(scn, behaviour=None, sim_options=None, draw_seed=0, keep_logging=False, global_random=False,
              extra_steps=0, after_build=None):
     """Run the real simulator on the scenario. Returns a result dict in the driver's output format
@@ -349,6 +402,11 @@ def run_impl(scn, behaviour=None, sim_options=None, draw_seed=0, keep_logging=Fa
             if after_build is not None:
                 after_build()          # e.g. build (and run) another simulation before this one runs
             drive = scn["drive"]
+            shadow = Shadow(scn, behaviour) if scn.get("shadow") else None
+            if shadow is not None:
+                if not keep_logging:
+                    quiet_logging()
+                shadow.step(scn["shadow"].get("lead", 0))
             for row in scn.get("prestart", []):
                 # requests through the provider after build() and before the first step
                 proto = sim.get_node(row["n"]).protocol_encapsulator.protocol
@@ -356,11 +414,15 @@ def run_impl(scn, behaviour=None, sim_options=None, draw_seed=0, keep_logging=Fa
                     rec.issue(proto, row["n"], req)
             if drive["mode"] == "start":
                 for _ in range(drive.get("pre", 0)):      # mixed driving: manual steps, then blocking
+                    if shadow is not None:
+                        shadow.step()
                     rets.append(bool(sim.step_simulation()))
                 sim.start_simulation()
             else:
                 if drive.get("untilDone"):
                     while True:
+                        if shadow is not None:
+                            shadow.step()
                         r = bool(sim.step_simulation())
                         rets.append(r)
                         if not r or len(rets) > 500000:
@@ -369,6 +431,8 @@ def run_impl(scn, behaviour=None, sim_options=None, draw_seed=0, keep_logging=Fa
                         rets.append(bool(sim.step_simulation()))
                 else:
                     for _ in range(drive["n"]):
+                        if shadow is not None:
+                            shadow.step()
                         rets.append(bool(sim.step_simulation()))
         except Exception as e:  # an exception escaping the simulator aborts the run
             crash = f"{type(e).__name__}: {e}"
